@@ -93,5 +93,7 @@ where
         }
     }
 
-    (colored, max_color + 1)
+    // no node, no colour
+    let color_count = if colored.is_empty() { 0 } else { max_color + 1 };
+    (colored, color_count)
 }
